@@ -66,6 +66,7 @@ type ConcResult struct {
 	Fatal      []string       `json:"fatal"`
 	ForeignG   int            `json:"foreignG"`
 	Stale      []string       `json:"stale"`
+	WrongArgs  []string       `json:"wrongArgs"`
 	NilRec     bool           `json:"nilRec"`
 	Infra      string         `json:"infra,omitempty"`
 	GraphStates []string      `json:"graphStates,omitempty"`
@@ -91,6 +92,8 @@ type concRunner struct {
 	pending map[*G][]*AOp
 	realG   map[*G]int64
 	heldCb  map[string]bool
+	argsOf  map[int]string // call id -> fingerprint of the arguments passed
+	wrongArgs map[string]bool
 	foreign int
 	runFat  []string
 	snaps   []held
@@ -191,6 +194,8 @@ func (r *concRunner) setup() error {
 	r.pending = map[*G][]*AOp{}
 	r.realG = map[*G]int64{}
 	r.heldCb = map[string]bool{}
+	r.argsOf = map[int]string{}
+	r.wrongArgs = map[string]bool{}
 	r.foreign = 0
 	r.runFat = nil
 	r.snaps = nil
@@ -274,6 +279,7 @@ func (r *concRunner) regArgs(x string, id int, args []reflect.Value) {
 		r.fpID[x] = map[string]int{}
 	}
 	k := recKey(fpList(args))
+	r.argsOf[id] = k
 	if old, dup := r.fpID[x][k]; dup && old != id {
 		r.anon[x] = true
 		return
@@ -374,8 +380,14 @@ func (r *concRunner) impl(x string, ft reflect.Type) func([]reflect.Value) []ref
 		held := s.heldBy(g)
 		s.log(g, "cbenter", "", x, held)
 		if pend := r.pending[g]; len(pend) > 0 {
-			if top := pend[len(pend)-1]; top.rm == x && top.Res == 0 {
-				top.Res = s.seq
+			if top := pend[len(pend)-1]; top.rm == x {
+				if top.Res == 0 {
+					top.Res = s.seq
+				}
+				// C03: the function gets the very arguments of the call it serves
+				if got := recKey(fpList(args)); got != r.argsOf[top.ID] {
+					r.wrongArgs[fmt.Sprintf("%sFunc serving call %d of g%d received %s, the caller passed %s", x, top.ID, g.id, got, r.argsOf[top.ID])] = true
+				}
 			}
 		}
 		for _, h := range held {
@@ -628,6 +640,11 @@ func (r *concRunner) flush(deadlock bool, blocked []string) {
 	for _, f := range r.runFat {
 		if len(res.Fatal) < 20 && !contains(res.Fatal, f) {
 			res.Fatal = append(res.Fatal, f)
+		}
+	}
+	for k := range r.wrongArgs {
+		if len(res.WrongArgs) < 10 && !contains(res.WrongArgs, k) {
+			res.WrongArgs = append(res.WrongArgs, k)
 		}
 	}
 	res.ForeignG += r.foreign
